@@ -31,6 +31,16 @@ class Roles:
                 continue
             if self._has_first_completed_wait_in_loop(f):
                 cands.append(c)
+        if len(cands) > 1:
+            # the wait may be seen through a delegation (`await self._helper()`): a class whose own co_run
+            # holds the loop wins; then the base-most class of an inheritance chain
+            direct = [c for c in cands if self._has_first_completed_wait_in_loop(c.methods['co_run'], depth=9)]
+            if len(direct) == 1:
+                cands = direct
+            else:
+                base = [c for c in cands if all(c in d.mro for d in cands)]
+                if len(base) == 1:
+                    cands = base
         if len(cands) != 1:
             raise AnalysisError("scheduler class (co_run with a FIRST_COMPLETED wait in a loop): "
                                 "%d candidates" % len(cands))
